@@ -339,5 +339,20 @@ func (e *C15) one(ctx *core.Ctx) {
 	ctx.Count("C15.churn-judged")
 	ctx.Count("C15.churn-" + action)
 	sort.Strings(sel)
-	judge("after-"+action, sel, nodes2, nil)
+	sel2 := judge("after-"+action, sel, nodes2, nil)
+	// the user then asks for one more canary node: the selection runs again and has to drop what the
+	// churn invalidated instead of keeping it next to the new nodes
+	if sel2 == nil || rep.Type != intstr.Int || r.Intn(2) == 0 {
+		return
+	}
+	rep = intstr.FromInt(int(rep.IntVal) + 1)
+	s.Mutate(simapi.KindEDS, "ns", "foo", func(o clientObject) {
+		x := rep
+		o.(*v1.ExtendedDaemonSet).Spec.Strategy.Canary.Replicas = &x
+	})
+	simapi.Advance(15 * time.Second)
+	ctx.Count("C15.churn-then-more-replicas-judged")
+	prev2 := append([]string{}, sel2...)
+	sort.Strings(prev2)
+	judge("after-"+action+"-then-more-replicas", prev2, nodes2, nil)
 }
